@@ -12,6 +12,14 @@ for d in props/*/; do
   if [ -d "props/$id/gen" ]; then
     go run "./props/$id/gen" >gen/$id.gen.log 2>&1 || { cat gen/$id.gen.log; rc=1; }
   fi
-  go build -tags verif -o "bin/$id" "./props/$id/run" || rc=1
+  ov=""
+  if [ -f "props/$id/overlay" ]; then
+    go run ./engine/overlay/cmd >gen/$id.overlay.log 2>&1 || { cat gen/$id.overlay.log; rc=1; }
+    ov="-overlay gen/overlay/overlay.json"
+  fi
+  go build -tags verif $ov -o "bin/$id" "./props/$id/run" || rc=1
+  if [ -d "props/$id/race" ]; then
+    go build -race -tags verif -o "bin/${id}race" "./props/$id/race" || rc=1
+  fi
 done
 exit $rc
